@@ -4,6 +4,7 @@ Exit codes: 0 held, 1 violation (line ``VIOLATION property=<id> replay=<path>``)
 2 undecided (contract no longer lines up with the code / resource limit), 3 checker error.
 """
 import argparse
+import z3 as z3lib
 import hashlib
 import importlib
 import json
@@ -230,6 +231,35 @@ def check(pid, cfg, args):
                 o = symex.Obligation('%s:%s' % (kind, detail[:160]), [], goal, 'c-' + kind, None, trace[-6:])
                 labelled.append(('c:%s::%s#%d' % (name, kind, n), o, r, 'c:' + name))
 
+    # ------------------------------------------------------------ C accelerator: functional contracts of the twins (cfun)
+    cfun_assumptions = []
+    if cfg.get('cfun') and not args.no_prove:
+        from zivc import cfun, solve, core
+        for modname in cfg['cfun']:
+            cmod = importlib.import_module('contracts.' + modname)
+            wanted = cfg.get('cfun_only', {}).get(modname)
+            procs = [p for p in cmod.PROCS if not wanted or p.name in wanted]
+            cfun_assumptions += list(getattr(cmod, 'ASSUMPTIONS', []))
+            axioms = core.prelude_axioms() + core.strlit_axioms() + cfun.api_axioms() + list(cmod.AXIOMS)
+            for p, status, detail, obls, npaths, ex in cfun.verify_cprocs(procs, cmod.FIELDS):
+                cfuncs.append({'function': p.name, 'file': 'src/zope/interface/_zope_interface_coptimizations.c',
+                               'language': 'c', 'kind': 'functional contract (cfun)', 'status': status, 'paths': npaths, 'obligations': len(obls)})
+                if status != 'ok':
+                    undecided.append('%s (C, functional): %s: %s' % (p.name, status, detail))
+                    continue
+                items = [(o.label, solve.to_smt2(axioms, o.hyps, o.goal)) for o in obls]
+                seen = {}
+                for o, r in zip(obls, solve.discharge(items, both=(tier == 'thorough'))):
+                    n = seen.get(o.label, 0)
+                    seen[o.label] = n + 1
+                    labelled.append(('cfun:%s::%s#%d' % (p.name, o.label, n), o, r, 'cfun:' + p.name))
+                if ex is not None:
+                    sm = solve.discharge([('smoke', solve.to_smt2(axioms, ex.pre, z3lib.BoolVal(False)))], z3_timeout=1500, use_cvc5=False)[0]
+                    if sm.z3 == 'unsat':
+                        errors.append('vacuous precondition for C function %s' % p.name)
+                if not obls:
+                    errors.append('zero obligations generated for C function %s' % p.name)
+
     n_obl = len(labelled)
     n_dis = sum(1 for _, _, r, _ in labelled if r.discharged)
     solver_time = sum(r.time for _, _, r, _ in labelled)
@@ -405,7 +435,7 @@ def check(pid, cfg, args):
     coverage = {
         'obligations': n_obl, 'discharged': n_dis,
         'checker_cmd': './check %s --tier %s' % (pid, tier),
-        'trusted_base': STANDING + assumption_scan(regs),
+        'trusted_base': STANDING + assumption_scan(regs) + cfun_assumptions,
         'obligations_by_backend': by_backend, 'solver_time_s': round(solver_time, 2),
         'functions_under_contract': funcs,
         'c_obligation_kinds': 'U use-after-callout, L reference balance, N NULL, B stale bound, St stale store (zivc/cfront.py)' if cfuncs else '',
@@ -425,7 +455,7 @@ def check(pid, cfg, args):
         'tree': tree_fingerprint(),
     }
     ev = {'property_id': pid, 'tier': tier, 'seed': seed, 'level': level, 'coverage': coverage,
-          'assumptions': STANDING + assumption_scan(regs) + cfg.get('assumptions', []),
+          'assumptions': STANDING + assumption_scan(regs) + cfun_assumptions + cfg.get('assumptions', []),
           'wall_s': round(time.time() - t0, 2), 'violations': nviol}
     os.makedirs(os.path.join(OUT, 'evidence'), exist_ok=True)
     with open(os.path.join(OUT, 'evidence', pid + '.json'), 'w') as f:
